@@ -871,11 +871,9 @@ static void run_fapdu(void) {
     printf("ERROR fapdu args\n");
     return;
   }
-  fa_attempts = 0;
-  fa_injected = 0;
+  fa_reset();
   fa_nfail = 0;
   fa_notice_fd = -1;
-  fa_nsites = 0;
   if (strcmp(vtok[6], "-") != 0) {
     char *c = vtok[6];
     while (*c && fa_nfail < FA_MAXFAIL) {
@@ -935,8 +933,12 @@ static void run_fapdu(void) {
   fa_armed = 0;
   printf("rets=%s attempts=%ld atomic=%d built=[", nr ? rets : "-", fa_attempts, atomic);
   dump_pdu(stdout, p);
-  printf("]\n");
+  printf("]");
   coap_delete_pdu(p);
+  fa_final_sweep();
+  if (fa_live || fa_guard_bad || fa_poison_bad)
+    printf(" HEAP live=%ld guard=%ld poison=%ld", fa_live, fa_guard_bad, fa_poison_bad);
+  printf("\n");
 }
 
 int main(void) {
